@@ -56,6 +56,7 @@ def run(ctx):
             C.sweep(ctx, model, table, lambda k: True, nvec, profile, stats, judge_answers=False)
             C.reply_sweep(ctx, model, 1 if quick else 6, profile, stats)
             C.traffic_sweep(ctx, model, 1 if quick else 4, profile, stats)
+            C.inside_sweep(ctx, model, 1 if quick else 4, profile, stats)
             C.retry_sweep(ctx, model, 2 if quick else 20, profile, stats)
             C.history_sweep(ctx, model, lambda k: True, 25 if quick else 400, stats, judge_answers=False)
             C.history_sweep(ctx, model, lambda k: True, 40 if quick else 500, stats, judge_answers=False, length=(4, 10),
@@ -92,6 +93,7 @@ def run(ctx):
     ctx.coverage["theorem_table_kinds"] = len(table[0]) if table else 0
     ctx.coverage["request_reply_cases"] = stats["reply_cases"]
     ctx.coverage["request_traffic_reply_cases"] = stats.get("traffic_cases", 0)
+    ctx.coverage["reply_inside_send_cases"] = stats.get("inside_cases", 0)
     ctx.coverage["histories_on_one_stack"] = {"histories": stats.get("histories", 0), "steps": stats.get("history_steps", 0),
                                               "both_directions_pairs": stats.get("history_direction_pairs", 0)}
     ctx.coverage["cases_per_kind"] = min(stats["per_kind"].values()) if stats["per_kind"] else 0
